@@ -305,10 +305,40 @@ pub fn run(job: &Job) -> RunResult {
                 let dict = merged_dict(&slots[si].words);
                 let t2 = text.clone();
                 let d2 = dict.clone();
-                let (inner_back, got) = on_worker(&mut workers[wi], move || {
-                    let r = lint_with(&mut inner, &t2, markdown, &d2);
-                    (inner, r)
+                let outcome = on_worker(&mut workers[wi], move || {
+                    std::panic::catch_unwind(std::panic::AssertUnwindSafe(move || {
+                        let r = lint_with(&mut inner, &t2, markdown, &d2);
+                        (inner, r)
+                    }))
+                    .map_err(|p| p.downcast_ref::<String>().cloned().or_else(|| p.downcast_ref::<&str>().map(|s| s.to_string())).unwrap_or_default())
                 });
+                let (inner_back, got) = match outcome {
+                    Ok(v) => v,
+                    Err(msg) => {
+                        // the long-lived linter panicked: a violation unless a fresh one does the same
+                        let mut fresh = fresh_like(&slots[si], cfg.clone(), kind);
+                        let t3 = text.clone();
+                        let d3 = dict.clone();
+                        let fresh_ok = std::thread::spawn(move || lint_with(&mut fresh, &t3, markdown, &d3)).join().is_ok();
+                        script.push(format!("lint slot{si}({kind}) doc{di} {} on thread {wi}: panic", if markdown { "md" } else { "plain" }));
+                        if fresh_ok {
+                            res.violate(Violation {
+                                property: "C05".into(),
+                                oracle: "C05.equals_fresh_linter".into(),
+                                class: "history_dependent_panic".into(),
+                                detail: format!(
+                                    "step {step}: a long-lived {kind} linter (after {} earlier lints) panics ({msg}) where a fresh one returns a result for the same text, language, dictionary and configuration; text {:?}",
+                                    slots[si].lints_done,
+                                    text.chars().take(200).collect::<String>()
+                                ),
+                                facts: json!({"kind": kind, "markdown": markdown}),
+                            });
+                        } else {
+                            res.verdict = crate::job::Verdict::Harness(format!("both the long-lived and a fresh linter panic: {msg}"));
+                        }
+                        break;
+                    }
+                };
                 slots[si].inner = Some(inner_back);
                 slots[si].lints_done += 1;
                 res.count("evaluations", 1);
